@@ -6,6 +6,11 @@ package httpserver
 // (a) itself between m.inst.Load() and inst.serveHTTP, (b) in its MuxMapper wrapper around the real
 // Namespace.GetHandler, (c) in the Handle of its marker filters placed before/after every real
 // filter; it stops an update at the end of the last marker filter's Init/Inherit.
+// A pipeline generation is built from version fv of its filters and version pv of its resilience
+// section (an update changes either or both).  Requests of class "x" (POST) fall under a URL rule of
+// the RateLimiter that every generation limits to one permit per hour; for requests of class "f" the
+// backend answers 503 and the Proxy retries as the retry policy of the resilience section says
+// (maxAttempts = pv + 1, the backend counts the calls): both show which configuration handled a request.
 //
 //   c11_world_test.go   the world: filter kind C11Mark, traffic-gate kind C11Gate, specs per generation
 //   c11_replay_test.go  TestVerifC11Replay - TLC-generated schedules replayed step by step (MBT)
@@ -38,14 +43,15 @@ import (
 )
 
 const (
-	c11Namespace = "c11ns"
-	c11ReqHeader = "X-C11-Req"
-	c11Wait      = 60 * time.Second
+	c11Namespace   = "c11ns"
+	c11ReqHeader   = "X-C11-Req"
+	c11ClassHeader = "X-C11-Class"
+	c11Wait        = 60 * time.Second
 )
 
-var c11FillerRules = 0 // set by the stress test
+var c11FillerRules = 0      // set by the stress test
 var c11LastErr atomic.Value // last transport error of the real-server variant (diagnostics)
-var c11Port = 18611      // only listened on by the runtime variant of the stress test (a free port is chosen then)
+var c11Port = 18611         // only listened on by the runtime variant of the stress test (a free port is chosen then)
 
 func init() {
 	logger.InitNop()
@@ -100,6 +106,8 @@ type c11Req struct {
 	obs   []c11Obs
 	asked string // backend name asked from the MuxMapper
 	found bool
+	cl    string // request class: "" / "n" plain, "x" POST (a URL rule every generation limits), "f" the backend fails the call
+	calls int64  // calls that reached the backend (attempts of the Proxy)
 	// result
 	status int
 	panicV string
@@ -245,7 +253,7 @@ type c11World struct {
 	mapper  *c11Mapper
 	mux     *mux
 	backend *httptest.Server
-	rlSame  bool // the RateLimiter's URL rule is the same in every version of a pipeline
+	rlSame  bool        // the RateLimiter's URL rule is the same in every version of a pipeline
 	hs      *HTTPServer // runtime variant: the real HTTPServer object (listener, event loop) owning w.mux
 	client  *http.Client
 }
@@ -257,8 +265,16 @@ func c11GetBackend() *httptest.Server {
 	c11BackendOnce.Do(func() {
 		c11Backend = httptest.NewServer(http.HandlerFunc(func(w http.ResponseWriter, r *http.Request) {
 			// schedule replay: the request is in flight at the backend until the controller lets it return
+			// (its first call: a call the Proxy repeats because its retry policy says so is answered at once)
 			if v, ok := c11Reqs.Load(r.Header.Get(c11ReqHeader)); ok {
-				v.(*c11Req).arrive("backend")
+				if atomic.AddInt64(&v.(*c11Req).calls, 1) == 1 {
+					v.(*c11Req).arrive("backend")
+				}
+			}
+			if r.Header.Get(c11ClassHeader) == "f" { // the backend fails this class of requests
+				w.WriteHeader(503)
+				w.Write([]byte("unavailable"))
+				return
 			}
 			w.Header().Set("X-C11-Backend", "1")
 			w.WriteHeader(200)
@@ -318,8 +334,17 @@ rules:
 `, c11Port, ov%2 == 1, 10000+ov, blocked, filler, be, rv)
 }
 
-// c11PipelineYAML is version ver of pipeline name: mark1 -> RateLimiter -> mark2 -> Proxy -> mark3.
+// c11PipelineYAML is version ver of pipeline name, filters and resilience section.
 func (w *c11World) c11PipelineYAML(name string, ver int) string {
+	return w.c11PipelineYAML2(name, ver, ver)
+}
+
+// c11PipelineYAML2 is the generation of pipeline name built from version fv of its filters
+// (mark1 -> RateLimiter -> mark2 -> Proxy -> mark3: the markers show fv, the RateLimiter and the Proxy
+// differ in an option) and version pv of its resilience section (the retry policy the Proxy refers to:
+// maxAttempts = pv + 1).  In every generation POST requests are limited to one permit per hour.
+func (w *c11World) c11PipelineYAML2(name string, fv, pv int) string {
+	ver := fv
 	url := "prefix: /"
 	if !w.rlSame && ver%2 == 0 {
 		url = "regex: ^/.*$"
@@ -339,8 +364,18 @@ filters:
     timeoutDuration: 100ms
     limitRefreshPeriod: 10ms
     limitForPeriod: 1000000
+  - name: tight
+    timeoutDuration: 1ms
+    limitRefreshPeriod: 1h
+    limitForPeriod: 1
+  - name: unused
+    limitForPeriod: %d
   defaultPolicyRef: pol
   urls:
+  - methods: [POST]
+    url:
+      prefix: /
+    policyRef: tight
   - url:
       %s
     policyRef: pol
@@ -350,15 +385,23 @@ filters:
   pos: 2
 - name: px
   kind: Proxy
+  maxIdleConns: %d
   pools:
   - servers:
     - url: %s
+    retryPolicy: retry
+    failureCodes: [503]
 - name: mark3
   kind: C11Mark
   value: %d
   pos: 3
   last: true
-`, name, ver, url, ver, w.backend.URL, ver)
+resilience:
+- name: retry
+  kind: Retry
+  maxAttempts: %d
+  waitDuration: 1ms
+`, name, ver, 10+ver, url, ver, 100+ver, w.backend.URL, ver, pv+1)
 }
 
 func c11NewWorld(rlSame bool) *c11World {
@@ -485,10 +528,35 @@ func (w *c11World) c11VerOfEntity(name string) (int, *supervisor.ObjectEntity) {
 	return f.(*c11Mark).spec.Value, e
 }
 
+// c11GenOfEntity reads (filters version, resilience version) of the pipeline stored under name: the
+// markers show the first, the retry policy of its spec the second; (0, 0) if there is none.
+func (w *c11World) c11GenOfEntity(name string) (fv, pv int, e *supervisor.ObjectEntity) {
+	fv, e = w.c11VerOfEntity(name)
+	if e == nil {
+		return 0, 0, nil
+	}
+	pv = -1
+	if ps, ok := e.Spec().ObjectSpec().(*pipeline.Spec); ok && len(ps.Resilience) > 0 {
+		if n, ok := ps.Resilience[0]["maxAttempts"].(int); ok {
+			pv = n - 1
+		}
+	}
+	return fv, pv, e
+}
+
 // c11NewHTTPRequest: client "b" is the address the server-level ipFilter blocks in every other
 // options version.
-func c11NewHTTPRequest(id, ip string) *http.Request {
-	stdr := httptest.NewRequest(http.MethodGet, "http://c11.test/in/x", http.NoBody)
+func c11NewHTTPRequest(id, ip string) *http.Request { return c11NewHTTPRequestC(id, ip, "n") }
+
+func c11NewHTTPRequestC(id, ip, cl string) *http.Request {
+	method := http.MethodGet
+	if cl == "x" {
+		method = http.MethodPost
+	}
+	stdr := httptest.NewRequest(method, "http://c11.test/in/x", http.NoBody)
+	if cl == "f" {
+		stdr.Header.Set(c11ClassHeader, "f")
+	}
 	stdr.Header.Set(c11ReqHeader, id)
 	if ip == "b" {
 		stdr.Header.Set("X-Real-Ip", c11BlockedIP)
@@ -522,7 +590,14 @@ func (w *c11World) c11Direct(r *c11Req, name string) int {
 	if !ok {
 		return http.StatusServiceUnavailable
 	}
-	stdr := httptest.NewRequest(http.MethodGet, "http://c11.test/direct", http.NoBody)
+	method := http.MethodGet
+	if r.cl == "x" {
+		method = http.MethodPost
+	}
+	stdr := httptest.NewRequest(method, "http://c11.test/direct", http.NoBody)
+	if r.cl == "f" {
+		stdr.Header.Set(c11ClassHeader, "f")
+	}
 	stdr.Header.Set(c11ReqHeader, r.id)
 	req, _ := httpprot.NewRequest(stdr)
 	req.FetchPayload(0)
